@@ -198,7 +198,7 @@ def run(tier, seed):
     tlc.check_coverage(r, ACTIONS, 'MergeJoin')
     chk.add_tlc(r, 'MergeJoin', cfg, ACTIONS)
     sensitivity(chk)
-    cases, xcases = common.gen('JoinGen', 'JoinGen', outs=('OUT', 'OUT2'))
+    cases, xcases, _l = common.gen('JoinGen', 'JoinGen', outs=('OUT', 'OUT2', 'OUT3'))
     profiles = ['ints', 'mixed', 'text', 'compound', 'equalreps'] if full else ['ints', 'mixed', 'equalreps', 'compound']
     if not full:
         rng = random.Random(seed)
